@@ -416,6 +416,12 @@ class FiniteEval:
                 return
             self.ev(s.value, env)
             return
+        if isinstance(s, ast.Try):
+            from .absint import handlers_only_reraise
+            if handlers_only_reraise(s) and not s.finalbody:
+                self.run(s.body, env)          # handlers only re-raise with an explanation: the non-raising paths are the body's
+                self.run(s.orelse, env)
+                return
         if isinstance(s, ast.Pass):
             return
         if isinstance(s, ast.Continue):
